@@ -258,7 +258,7 @@ def jobs_for(prop, tier, seed, only_leg=None):
             if leg.get("python"):
                 # A Python stage of the pipeline (the independent format codec); prints the same VMON-RESULT line.
                 args = [a.format(dir=work_dir(prop, tier, seed), shard=s, nshards=of, seed=seed) for a in leg["pyargs"]]
-            jobs.append({"cfg": leg["cfg"], "args": args, "leg": li, "shard": s, "stage": leg.get("stage", 0), "python": leg.get("python"), "only_crash": bool(leg.get("driver")), "timeout": leg.get("timeout", 1800 if tier == "quick" else 7200),
+            jobs.append({"cfg": leg["cfg"], "args": args, "leg": li, "shard": s, "stage": leg.get("stage", 0), "python": leg.get("python"), "only_crash": bool(leg.get("driver")), "timeout": leg.get("timeout", 900 if tier == "quick" else 5400),
                          "env": leg.get("env", {}), "weight": leg.get("weight", 1), "seed": seed})
     return jobs
 
@@ -300,6 +300,8 @@ def classify_crash(res):
         return None
     if CONFIGS[cfg][5] == "valgrind" and rc == 99:
         return "valgrind.memcheck"
+    if rc is not None and rc in (-9, -15):
+        return None  # killed from outside (watchdog, operator, OOM killer): not evidence about the library
     if rc is not None and rc < 0:
         return "signal.%s" % signal.Signals(-rc).name
     if rc in (134, 139, 132, 135, 136):
@@ -362,6 +364,8 @@ def run_property(prop, tier, seed):
         if res is None:
             if r["timed_out"]:
                 inconclusive.append("watchdog fired after %ds in %s shard %d" % (job["timeout"], job["cfg"], job["shard"]))
+            elif r["rc"] in (-9, -15):
+                inconclusive.append("%s shard %d was killed from outside (rc=%s)" % (job["cfg"], job["shard"], r["rc"]))
             elif not crash:
                 harness_errors.append("%s shard %d: no result (rc=%s) stderr: %s stdout: %s" % (job["cfg"], job["shard"], r["rc"], r["stderr_tail"][-1500:], r["stdout_tail"]))
             continue
